@@ -268,5 +268,8 @@ func c19(c *core.Ctx) {
 		c.Note("%d go statements in scope: %s", n, strings.Join(names, "; "))
 	})
 
+	c.Clause("C19.6", "a goroutine the engine starts in a loop works on its own iteration's value: the loop-variable capture rule of C20.1 (package chain/consensus included) is evaluated here as well — goroutines that share the range variable read it while the loop writes it")
+	c.Run("loop-closures", func() { c20LoopClosures(c) })
+
 	c.NotDecidedf("linearizability of concurrent requests; validity of emitted signatures as values; races inside goleveldb / metrics; accesses the must-lockset approximation cannot attribute are reported, not assumed safe; lock identity is per type, not per instance")
 }
